@@ -42,7 +42,7 @@ if __name__ == "__main__":
     args = [a for a in sys.argv[1:] if not a.startswith("--")]
     allp = "--all-props" in sys.argv
     ids = args or sorted(os.listdir(os.path.join(VERIF, "seeded")))
-    with ThreadPoolExecutor(max_workers=4) as ex:
+    with ThreadPoolExecutor(max_workers=int(os.environ.get("RBV_JOBS", "4"))) as ex:
         for r in ex.map(lambda s: run_one(s, allp), ids):
             own = {}
             for p in r.get("by") or [r.get("property")]:
